@@ -43,6 +43,16 @@ def run(ctx):
             if rnd.random() < 0.7:
                 lat, kind = rnd.choice(T.LATS)
                 b.insert(rnd.randint(0, len(b)), T.I('S', a=lat, b=kind, s='/x%d_%d' % (p['id'], len(b))))
+    for p in progs:      # the same bundle (same list objects in the driver) sent again later by the same routine
+        for b in p['routines'].values():
+            ss = [i for i in b if i['op'] == 'S']
+            if ss and rnd.random() < 0.5:
+                again = dict(rnd.choice(ss))
+                k = b.index([i for i in b if i is not None and i['op'] == 'S' and i['s'] == again['s']][0])
+                pos = rnd.randint(k + 1, len(b))
+                b.insert(pos, again)
+                if rnd.random() < 0.7:
+                    b.insert(pos, T.I('Y', a=rnd.choice(T.DELTAS[1:])))
     nrt = [dict(p, main=[i for i in p['main'] if i['op'] != 'IN']) for p in progs]
     tn, tr, v = check(ctx, nrt, progs, MINE, sig, 'C07')
     ctx.cov['rule'] = ('%d seeded random routine programs with sends (latency in {0,1/8,1/4,1 s, None, -1/4 s}, plain messages, '
